@@ -558,6 +558,11 @@ def standin(run, tier, seed):
             xs.append(rnd.randrange(0, 4000) * 0.1 + rnd.randrange(0, 100) * 0.01)
         if rnd.random() < 0.1:
             xs.append(float(rnd.randrange(0, MAXSEC)) + 10.0 ** -rnd.randrange(4, 17))
+    # products and sums of grid values: the ones that land a hair BELOW a whole second (4.35*100 = 434.99999999999994) as well as above
+    for k in range(1, 6000, 1 if tier != 'quick' else 3):
+        for x in (k / 100 * 100, k / 1000 * 1000, (k / 100) * 60, 0.1 * k, k * 0.01 + 0.7 + 0.1 - 0.8):
+            if x >= 0 and x != int(x) and abs(x - round(x)) < 1e-6:
+                xs.append(x)
     for x in xs:
         for prec in range(4):
             n += 1
